@@ -147,7 +147,7 @@ pub fn type_info(r: &mut Rng) -> TypeInfo {
 pub fn f32_bits(r: &mut Rng) -> u32 {
     const SPECIAL: &[u32] = &[
         0, 0x8000_0000, 0x3f80_0000, 0xbf80_0000, 0x7f80_0000, 0xff80_0000, 0x7fc0_0000,
-        0x7f80_0001, 0xffc0_0001, 1, 0x007f_ffff, 0x0080_0000, 0x7f7f_ffff, 0x3c23_d70a,
+        0x7f80_0001, 0xffc0_0001, 0x7fa0_0000, 0xff80_0001, 0x7fbf_ffff, 0xffbf_ffff, 1, 0x007f_ffff, 0x0080_0000, 0x7f7f_ffff, 0x3c23_d70a,
         0x3f00_0000, 0x4b00_0000, 0x5f00_0000, 0x5f80_0000, 0x4f80_0000, 0x3e80_0000,
     ];
     if r.chance(1, 2) {
@@ -160,7 +160,7 @@ pub fn f32_bits(r: &mut Rng) -> u32 {
 pub fn f64_bits(r: &mut Rng) -> u64 {
     const SPECIAL: &[u64] = &[
         0, 0x8000_0000_0000_0000, 0x3ff0_0000_0000_0000, 0x7ff0_0000_0000_0000,
-        0xfff0_0000_0000_0000, 0x7ff8_0000_0000_0000, 0x7ff0_0000_0000_0001, 1,
+        0xfff0_0000_0000_0000, 0x7ff8_0000_0000_0000, 0x7ff0_0000_0000_0001, 0xfff4_0000_0000_0000, 1,
     ];
     if r.chance(1, 3) {
         *r.pick(SPECIAL)
